@@ -11,6 +11,7 @@ import (
 )
 
 func (t *FnTrans) instr(b *ssa.BasicBlock, idx int, in ssa.Instruction, st *HeapState, reach string) {
+	t.curSt = st
 	switch x := in.(type) {
 	case *ssa.DebugRef:
 		return
@@ -138,6 +139,20 @@ func (t *FnTrans) instr(b *ssa.BasicBlock, idx int, in ssa.Instruction, st *Heap
 		}
 	case *ssa.Range:
 		t.setVal(x, unknown(x.Type()))
+		// ranging over a map: the set of keys produced so far starts empty, and
+		// nothing has been inserted into the ranged map yet
+		if comp, srt, _, ok := t.rangeVisited(x); ok {
+			t.heapSet(st, comp, srt, sx("(as const "+srt+")", "false"))
+			tcomp := strings.Replace(comp, "G.V.", "G.VT.", 1)
+			tsrt := arraySort("Int", "Bool")
+			t.heapSet(st, tcomp, tsrt, sx("(as const "+tsrt+")", "false"))
+			if t.rangeMapRef == nil {
+				t.rangeMapRef = map[*ssa.Range]string{}
+			}
+			if m := t.val(x.X); m.K == VScalar {
+				t.rangeMapRef[x] = m.S
+			}
+		}
 	case *ssa.Next:
 		nv := t.havocVal(x.Type(), "next")
 		t.setVal(x, nv)
@@ -148,6 +163,7 @@ func (t *FnTrans) instr(b *ssa.BasicBlock, idx int, in ssa.Instruction, st *Heap
 				if m.K == VScalar && nv.Sub[0].K == VScalar && nv.Sub[1].K == VScalar {
 					mv, present := t.mapRead(st, mt, m.S, nv.Sub[1].S, reach)
 					t.assume(reach, implies(nv.Sub[0].S, present), "a key produced by ranging over a map is present in it")
+					t.visitKey(rg, mt, m.S, nv.Sub[0].S, nv.Sub[1].S, st, reach)
 					// ... and the value produced with it is the value stored under that key
 					if nv.Sub[2].K == VScalar && mv.K == VScalar {
 						t.assume(reach, implies(nv.Sub[0].S, eq(nv.Sub[2].S, mv.S)), "the value produced by ranging over a map is the value stored under the produced key")
@@ -717,6 +733,109 @@ func (t *FnTrans) typeAssert(x *ssa.TypeAssert, reach string) {
 
 // ----------------------------------------------------------------- maps ---
 
+// rangeVisited: the ghost component that holds the set of keys a `range` over
+// a map has produced so far (an array key -> Bool), one per Range instruction.
+func (t *FnTrans) rangeVisited(rg *ssa.Range) (comp, srt, ks string, ok bool) {
+	mt, isMap := rg.X.Type().Underlying().(*types.Map)
+	if !isMap {
+		return "", "", "", false
+	}
+	ks = t.mode.scalarSort(mt.Key())
+	if ks == "" {
+		return "", "", "", false
+	}
+	if t.rangeIds == nil {
+		t.rangeIds = map[*ssa.Range]int{}
+	}
+	id, seen := t.rangeIds[rg]
+	if !seen {
+		id = len(t.rangeIds) + 1
+		t.rangeIds[rg] = id
+	}
+	return fmt.Sprintf("G.V.r%d", id), arraySort(ks, "Bool"), ks, true
+}
+
+func (t *FnTrans) noteKeyTerm(ks, key string) {
+	if t.phase2 || key == "" {
+		return
+	}
+	if t.keyTerms == nil {
+		t.keyTerms = map[string]map[string]bool{}
+	}
+	if t.keyTerms[ks] == nil {
+		t.keyTerms[ks] = map[string]bool{}
+	}
+	t.keyTerms[ks][key] = true
+}
+
+// visitKey: Next of a map range produced (ok, key).  The key was not produced
+// before; it joins the visited set; and when the range is exhausted (!ok)
+// every key that is present in the map has been produced -- unless the loop
+// body itself inserts into a map of that type (Go may or may not produce an
+// entry created during the iteration), in which case that fact is withheld.
+func (t *FnTrans) visitKey(rg *ssa.Range, mt *types.Map, m, ok, key string, st *HeapState, reach string) {
+	comp, srt, ks, has := t.rangeVisited(rg)
+	if !has {
+		return
+	}
+	t.noteKeyTerm(ks, key)
+	v := t.heapGet(st, comp, srt)
+	t.assume(reach, implies(ok, not(sx("select", v, key))), "a key is produced at most once by a range over a map")
+	{
+		pcomp, psrt, _, _ := t.mapComps(mt)
+		pa := sx("select", t.heapGet(st, pcomp, psrt), m)
+		guard := and(reach, not(ok))
+		if t.loopInsertsIntoMapType(rg, mt) {
+			// the loop inserts into some map of this type: the fact holds only
+			// if none of those insertions went into the ranged map itself
+			tcomp := strings.Replace(comp, "G.V.", "G.VT.", 1)
+			tsrt := arraySort("Int", "Bool")
+			guard = and(guard, not(sx("select", t.heapGet(st, tcomp, tsrt), "0")))
+		}
+		t.assumps = append(t.assumps, Assump{Guard: guard, Why: "an exhausted range over a map has produced every key that is present (no insertion into a map of this type inside the loop)", F: Formula{Lazy: func() string {
+			var parts []string
+			var cs []string
+			for c := range t.keyTerms[ks] {
+				cs = append(cs, c)
+			}
+			sortStrings(cs)
+			for _, c := range cs {
+				parts = append(parts, implies(and(not(eq(m, "0")), sx("select", pa, c)), sx("select", v, c)))
+			}
+			return and(parts...)
+		}}})
+	}
+	t.heapSet(st, comp, srt, ite(ok, sx("store", v, key, "true"), v))
+}
+
+// loopInsertsIntoMapType: does the loop that iterates this range contain a map
+// update (or an unknown effect) on a map of the ranged map's type?
+func (t *FnTrans) loopInsertsIntoMapType(rg *ssa.Range, mt *types.Map) bool {
+	var nextBlk *ssa.BasicBlock
+	for _, ref := range *rg.Referrers() {
+		if nx, ok := ref.(*ssa.Next); ok {
+			nextBlk = nx.Block()
+		}
+	}
+	if nextBlk == nil {
+		return true
+	}
+	for _, li := range t.loops {
+		if li.header != nextBlk {
+			continue
+		}
+		for b := range li.blocks {
+			for _, in := range b.Instrs {
+				if mu, ok := in.(*ssa.MapUpdate); ok && types.Identical(mu.Map.Type().Underlying(), mt) {
+					return true
+				}
+			}
+		}
+		return false
+	}
+	return true
+}
+
 func (t *FnTrans) mapComps(mt *types.Map) (present string, presentSort string, keySort string, ok bool) {
 	ks := t.mode.scalarSort(mt.Key())
 	if ks == "" {
@@ -750,6 +869,9 @@ func (t *FnTrans) mapRead(st *HeapState, mt *types.Map, m, key string, reach str
 	}
 	present := sx("select", sx("select", t.heapGet(st, comp, srt), m), key)
 	present = and(not(eq(m, "0")), present)
+	if !strings.HasPrefix(key, "sks.") && !strings.HasPrefix(key, "skk.") {
+		t.noteKeyTerm(ks, key)
+	}
 	if ks == "Str" && !t.phase2 && !strings.HasPrefix(key, "sks.") {
 		// string keys the code itself looks up are instantiation candidates
 		// for facts quantified over all strings (forallstr in hypotheses)
@@ -763,6 +885,7 @@ func (t *FnTrans) mapRead(st *HeapState, mt *types.Map, m, key string, reach str
 		arr := t.heapGet(st, base, arraySort("Int", arraySort(ks, cds[0].sort)))
 		raw := scalar(mt.Elem(), sx("select", sx("select", arr, m), key))
 		t.assume(reach, t.typeAssume(raw), "map value in type range")
+		t.entryRefFact(raw.S, mt.Elem())
 		z := t.zeroVal(mt.Elem())
 		val = scalar(mt.Elem(), ite(present, raw.S, z.S))
 	case 4:
@@ -827,6 +950,22 @@ func (t *FnTrans) mapUpdate(x *ssa.MapUpdate, st *HeapState, reach string, b *ss
 		// unmodelled key type: havoc the map components
 		t.note("map update with unmodelled key type %s", mt.Key())
 		return
+	}
+	t.noteKeyTerm(ks, k.S)
+	// an insertion into a map that is being ranged over taints that range
+	// (Go may or may not produce the new entry)
+	for rg, ref := range t.rangeMapRef {
+		if !types.Identical(rg.X.Type().Underlying(), mt) {
+			continue
+		}
+		vcomp, _, _, has := t.rangeVisited(rg)
+		if !has {
+			continue
+		}
+		tcomp := strings.Replace(vcomp, "G.V.", "G.VT.", 1)
+		tsrt := arraySort("Int", "Bool")
+		old := t.heapGet(st, tcomp, tsrt)
+		t.heapSet(st, tcomp, tsrt, sx("store", old, "0", or(sx("select", old, "0"), eq(m.S, ref))))
 	}
 	arr := t.heapGet(st, comp, srt)
 	t.heapSet(st, comp, srt, sx("store", arr, m.S, sx("store", sx("select", arr, m.S), k.S, "true")))
